@@ -116,7 +116,7 @@ def main_clause(cl, rng, n, replay):
         f, mc, sc = gen(rng, j)
         lw = float(rng.choice([10., 30., 60., 120.]))
         nw = int(rng.choice([5, 10, 30, 100]))
-        fn_std = float(rng.choice([0.01, 0.05, 0.1, 0.2, 0.5]))
+        fn_std = float(rng.choice([0.01, 0.05, 0.1, 0.2, 0.5, 0.0]))        # 0.0: every window peaks on the same frequency sample (normal distribution)
         sr = [(None, None), (None, None), (float(f[2]), None), (None, float(f[-3])), (float(f[1]) * 1.01, float(f[-2]) * 0.99), (float(f[-2]), float(f[2]))][j % 6]
         verbose = j % 3
         wr, wc = spec_reliability(lw, nw, f, mc, sc, sr), spec_clarity(f, mc, sc, fn_std, sr)
